@@ -5,7 +5,7 @@ from __future__ import annotations
 from fractions import Fraction
 
 from ..algebra import Poly
-from ..components import Guard
+from ..components import Guard, MustTouched
 from ..entries import derive_scratch, setters, stored_attrs
 from ..index import AnalysisError, FuncInfo
 from ..interp import Interp
@@ -73,7 +73,8 @@ def _getter_info(index, cls, name):
 def _check_size_setter(res, index, cls, name, fn, scratch):
     g = Guard("value")
     g.scratch = scratch
-    it = Interp(index, [g])
+    mt = MustTouched()
+    it = Interp(index, [g, mt])
     gsym, gdim = _getter_info(index, cls, name)
     pname = fn.params[1] if len(fn.params) > 1 else "value"
     g.param = pname
@@ -117,6 +118,22 @@ def _check_size_setter(res, index, cls, name, fn, scratch):
             res.bad("GUARD-3", label + ":" + exc, ev.where(), f"{label}.setter refuses a non-positive target with {exc}, not ValueError")
         elif g.guard_sites:
             res.ok("GUARD-3", label)
+    # ------------------------------------------------------------ every accepted assignment changes the size state
+    if writes:
+        exp_all = _length_attrs(it, cls)
+        accepted = [(s_, n_) for (v, s_, n_) in r["returns"] if s_.comp[g.name]["pos"]]
+        # what an accepted assignment changes on *some* path it must change on every path
+        changed_somewhere = {e.loc for e in writes} & exp_all
+        for (s_, n_) in accepted:
+            touched = s_.comp[mt.name]
+            missing = changed_somewhere - touched
+            if missing:
+                res.bad("SET-3", f"{label}:path:{','.join(sorted(a for _o, a in missing))}", f"{fn.file}:{getattr(n_, 'lineno', fn.lineno)}",
+                        f"{label}.setter can accept a positive target and return without changing {sorted(a for _o, a in missing)}: "
+                        f"the property does not read back as assigned")
+                break
+        else:
+            res.ok("SET-3", label, nontrivial=False)
     # ------------------------------------------------------------ setter o getter
     if not writes:
         return
@@ -222,9 +239,31 @@ def _check_translation(res, index, cls, name, fn, scratch):
         res.ok("TRANS-1", label, sample={"setter": label, "writes": sorted({f'{e.loc[1]}:{e.mode}:{e.op}' for e in writes})})
 
 
+def _length_attrs(it, cls):
+    expected = set()
+    objs = {"self": cls}
+    for c in cls.mro:
+        for (cn, attr), comp in it.composites.items():
+            if cn == c.name:
+                objs[f"self.{attr}"] = comp
+    for oid, c in objs.items():
+        for a in stored_attrs(c):
+            if a in LENGTH_ATTRS:
+                expected.add((oid, a))
+    return expected
+
+
 def _check_rescale(res, index, cls, fn):
-    it = Interp(index)
+    mt = MustTouched()
+    it = Interp(index, [mt])
     r = it.run_entry(fn, cls)
+    exp_all = _length_attrs(it, cls)
+    for (v, s_, n_) in r["returns"]:
+        missing = exp_all - s_.comp[mt.name]
+        if missing:
+            res.bad("RESC-1", f"{cls.name}._rescale:path:{','.join(sorted(a for _o, a in missing))}", f"{fn.file}:{getattr(n_, 'lineno', fn.lineno)}",
+                    f"{cls.name}._rescale can return without scaling {sorted(o + '.' + a for o, a in missing)} (an early exit): the setter then "
+                    f"silently keeps the old size instead of the assigned one")
     res.evaluations += it.stats["stmts"]
     params = fn.params[1:]
     if not params:
